@@ -13,6 +13,8 @@
 From V.lib Require Import Base.
 From V.model Require Import Merkle.
 From V.proofs Require Import Merkle_Proofs.
+From V.model Require TxFlow TxFlowSpec.
+From V.proofs Require TxFlow_Proofs.
 
 (* root_agrees: the streaming root is the textbook root *)
 Theorem C04_root_agrees :
@@ -247,3 +249,14 @@ Proof. vm_compute. repeat split; reflexivity. Qed.
 Example C04_duplication_note :
   ref_root (map Leaf [1; 2; 3]) = ref_root (map Leaf [1; 2; 3; 3]).
 Proof. vm_compute. reflexivity. Qed.
+
+(* Node level (model/TxFlow.v, the transaction pipeline the correspondence check runs against a real Node with
+   conflicts, unsafe / cancelled states, delay checks and restarts around the blocks): on EVERY valid history the
+   monitor never reports code 153 - "a matching transaction of a processed block is not notified with the proof
+   for THIS block and unconfirmed depth 0 (as new if never delivered, as an update otherwise)" - nor 154
+   (a refused block delivers something). *)
+Theorem C04_txflow_confirmations :
+  forall (delay : Z) (ops : list TxFlow.op),
+    TxFlowSpec.flow_valid delay ops = true -> TxFlowSpec.never_objects delay [153; 154] ops.
+Proof. exact (fun delay ops H => TxFlow_Proofs.txflow_never_objects_any [153; 154] delay ops H). Qed.
+Print Assumptions C04_txflow_confirmations.
